@@ -43,15 +43,15 @@ type XNode struct {
 	Desc      string
 	// Exts: arguments of the extension statements the node carries (its own,
 	// then those of every uses statement that brought it along); compared as a set.
-	Exts []string
-	Key       string
-	HasList   bool
-	Min, Max  uint64
-	ByUser    bool
-	Type      *XType
-	Kids      map[string]*XNode
-	Input     *XNode
-	Output    *XNode
+	Exts     []string
+	Key      string
+	HasList  bool
+	Min, Max uint64
+	ByUser   bool
+	Type     *XType
+	Kids     map[string]*XNode
+	Input    *XNode
+	Output   *XNode
 	// HasRPC mirrors whether the node can lazily grow input/output.
 	HasRPC bool
 	// Implicit marks a case inserted around a shorthand choice member.
@@ -78,6 +78,7 @@ type Compiled struct {
 	Identities map[string][]string
 	// AugApplied counts augments applied, AugPasses the number of fixpoint passes needed.
 	AugApplied int
+	AugLate    int // augments applied in the pass after implicit-case insertion
 	AugPasses  int
 }
 
@@ -156,6 +157,27 @@ func CompileWith(s *Scenario, ignoreNotSupported bool) *Compiled {
 			todo = append(todo, pending{m, a})
 		}
 	}
+	apply := func(p pending, tgt *XNode) {
+		c.out.AugApplied++
+		if !tgt.IsDir() || tgt.Kind == KAnyData || tgt.Kind == KAnyXML {
+			// a leaf, leaf-list, anydata or anyxml cannot have child nodes
+			c.conflict("augment %s targets a %s", stepsString(p.a.Target), tgt.Kind)
+			return
+		}
+		tmp := &XNode{Kind: "augment", Kids: map[string]*XNode{}}
+		c.addBody(tmp, p.m, p.a.Body)
+		for _, name := range sortedKids(tmp.Kids) {
+			k := tmp.Kids[name]
+			if tgt.Kids[name] != nil {
+				c.conflict("augment %s: child %s already exists in the target", stepsString(p.a.Target), name)
+				continue
+			}
+			k.NSMod = p.m.Owner()
+			k.Grafted = true
+			k.Parent = tgt
+			tgt.Kids[name] = k
+		}
+	}
 	for len(todo) > 0 {
 		progress := false
 		var rest []pending
@@ -167,37 +189,39 @@ func CompileWith(s *Scenario, ignoreNotSupported bool) *Compiled {
 				continue
 			}
 			progress = true
-			c.out.AugApplied++
-			if !tgt.IsDir() || tgt.Kind == KAnyData || tgt.Kind == KAnyXML {
-				// a leaf, leaf-list, anydata or anyxml cannot have child nodes
-				c.conflict("augment %s targets a %s", stepsString(p.a.Target), tgt.Kind)
-				continue
-			}
-			tmp := &XNode{Kind: "augment", Kids: map[string]*XNode{}}
-			c.addBody(tmp, p.m, p.a.Body)
-			for _, name := range sortedKids(tmp.Kids) {
-				k := tmp.Kids[name]
-				if tgt.Kids[name] != nil {
-					c.conflict("augment %s: child %s already exists in the target", stepsString(p.a.Target), name)
-					continue
-				}
-				k.NSMod = p.m.Owner()
-				k.Grafted = true
-				k.Parent = tgt
-				tgt.Kids[name] = k
-			}
+			apply(p, tgt)
 		}
 		todo = rest
 		if !progress {
 			break
 		}
 	}
-	for _, p := range todo {
-		c.conflict("augment %s: target not found", stepsString(p.a.Target))
-	}
 	// 3. implicit cases
 	for _, root := range c.out.Trees {
 		fixChoice(root)
+	}
+	// 3b. one more pass, as the library makes it: an augment whose path runs
+	// through an implicit case finds its target only now (the generator writes
+	// at most one such augment per scenario, so the order of this pass does not
+	// matter); what it adds may need implicit cases of its own
+	if len(todo) > 0 {
+		var rest []pending
+		for _, p := range todo {
+			tgt := c.find(p.a.Target, true)
+			if tgt == nil {
+				rest = append(rest, p)
+				continue
+			}
+			c.out.AugLate++
+			apply(p, tgt)
+		}
+		todo = rest
+		for _, root := range c.out.Trees {
+			fixChoice(root)
+		}
+	}
+	for _, p := range todo {
+		c.conflict("augment %s: target not found", stepsString(p.a.Target))
 	}
 	// 4. deviations, module by module, in written order
 	for _, m := range s.Mods {
